@@ -260,9 +260,8 @@ def findAnswerV2 (v : View) (q control qnameOut : Bytes) (qtype : Nat) : R Ans :
   | some rev =>
     -- user state: (answer so far, wildcard flag, lastLength)
     let pre := fun (length : Nat) (st : Ans × Bool × Nat) =>
-      -- `len(q) < len(packedControlName)` compares the whole reversed name: never true for a name
-      -- under the zone cut
-      if rev.length < control.length then none
+      -- the search has walked above the zone cut when the current prefix is shorter than it
+      if length < control.length then none
       else
         -- labels between `length` and `lastLength` must be wild-safe
         let rec chk (fuel i : Nat) : Bool :=
@@ -345,7 +344,7 @@ def additionalFor (v : View) (cls : Nat) (records : List RR)
         let want6 := ¬ present name 28 acc
         if ¬ (want4 ∨ want6) then acc
         else
-          let rows := rowsOf v name
+          let rows := rowsOf v (toLower name)     -- keys are lower-case; the target keeps its case
           let parsed := rows.filterMap fun row => match extractRR row false with
             | .row r => some r
             | _ => none
